@@ -2103,8 +2103,13 @@ static bool parse_ignored(TokenContext &ctx, Chunk &pc)
    ctx.restore();
 
    // parse off whitespace leading to the comment
+   const size_t ws_idx = ctx.c.idx;
+
    if (parse_whitespace(ctx, pc))
    {
+      // an ignored chunk is written verbatim: keep the blanks as its text,
+      // otherwise the indentation of this line is lost
+      pc.Str().set(ctx.data, ws_idx, ctx.c.idx - ws_idx);
       pc.SetType(CT_IGNORED);
       return(true);
    }
